@@ -77,7 +77,7 @@ EqT(a, b, strict) ==
             /\ \A i \in 1..Len(a.c) : \E j \in 1..Len(b.c) : EqT(a.c[i], b.c[j], FALSE)
             /\ \A j \in 1..Len(b.c) : \E i \in 1..Len(a.c) : EqT(a.c[i], b.c[j], FALSE)
   ELSE IF a.t # b.t THEN FALSE
-  ELSE IF a.t \in {"str", "none", "other", "range", "ipnet", "iter", "cls"} THEN a.v = b.v
+  ELSE IF a.t \in {"str", "none", "other", "range", "ipnet", "iter", "cls", "badit"} THEN a.v = b.v
   ELSE IF a.t \in {"list", "tuple", "ntuple"} \/ (a.t = "dict" /\ strict)
        THEN Len(a.c) = Len(b.c) /\ \A i \in 1..Len(a.c) : EqT(a.c[i], b.c[i], strict)
   ELSE IF a.t = "dict"
